@@ -83,6 +83,7 @@ func (v *Validator) PostprocessBlock(bl *block.Block, hash util.Hash, txs []*tra
 		Hash:  hash,
 		Txs:   txs,
 	})
+	queued := len(v.postprocess)
 	v.postprocessMut.Unlock()
 
 	if insta {
@@ -90,7 +91,7 @@ func (v *Validator) PostprocessBlock(bl *block.Block, hash util.Hash, txs []*tra
 		return
 	}
 
-	if len(v.postprocess) >= POSTPROCESS_SIZE {
+	if queued >= POSTPROCESS_SIZE {
 		v.postprocessChan <- true
 	}
 }
